@@ -365,6 +365,12 @@ def run(rep: vlib.Reporter, tier: str, seed: int) -> None:
             else:
                 found |= classify(i, g["plan"], f"THREADING schedule {schedule}: {failure}", replay, True,
                                   f"threading:{json.dumps(r['spec'], sort_keys=True)}:{schedule}")
+    # a worker FAILS in the middle of a pass of the loop (deterministic schedule: harness/c01_midpass.py, Model/OrchMid.v)
+    from harness import c01_midpass
+    elig = [i for i, r in enumerate(recs) if r["sync"]["status"] == "ok" and not r["sync"]["judge"] and i not in has_conflict
+            and not coq_domains.get(id(r["plan"])) and i not in bad_wf]
+    f_mid, _ = c01_midpass.family(rep, "C01", recs, elig, random.Random(seed * 31 + 7), 40 if big else 8)
+    found |= f_mid
     # MULTIPROCESSING (sampled schedules): the same judge on traces written by the worker processes
     from mloda.user import ParallelizationMode
     n_mp = 40 if big else 5
@@ -413,6 +419,9 @@ def run(rep: vlib.Reporter, tier: str, seed: int) -> None:
 def replay(path: str) -> int:
     r = json.load(open(path))["replay"]
     install()
+    if r.get("kind") == "midpass":
+        from harness import c01_midpass
+        return c01_midpass.replay(r)
     spec = r["spec"]
     gl = GateListener()
     uni = Universe(spec, gl)
